@@ -118,6 +118,25 @@ func (e *Engine) initStubs() {
 		}
 		return tb.False
 	}, func(e *Engine, st *State, th *Thread, args []Value) (bool, string) { return false, "quiesce" })
+	e.stub(V+"Monitored", func(e *Engine, st *State, th *Thread, c *callCtx) Value {
+		if iv, ok := c.args[0].(IfaceV); ok {
+			if p, ok := iv.V.(Ptr); ok && p.Obj != 0 {
+				st.wobj(p.Obj).Harness = false
+			}
+		}
+		return nil
+	})
+	e.visible(V+"QuiesceIdle", func(e *Engine, st *State, th *Thread, c *callCtx) Value {
+		if e.Cfg.Race {
+			e.hbJoinAll(st, th)
+		}
+		for i, o := range st.Threads {
+			if i != st.Cur && o.Status == TRun {
+				return tb.True
+			}
+		}
+		return tb.False
+	}, func(e *Engine, st *State, th *Thread, args []Value) (bool, string) { return false, "quiesce-idle" })
 	e.visible(V+"atomicBegin", func(e *Engine, st *State, th *Thread, c *callCtx) Value {
 		if e.Cfg.Race {
 			e.hbAtomicBegin(st, th)
